@@ -342,7 +342,7 @@ def run(prog, check):
     check.floor('C12.R7', 3)
     check.floor('C12.R1', 3)
     check.floor('C12.R2', 5)
-    check.floor('C12.R3', 3)
+    check.floor('C12.R3', 2)
     check.floor('C12.R4', 4)
     check.floor('C12.R6', 1)
     sign_parsing(prog, check, T)
